@@ -59,7 +59,6 @@ Section Preserve.
     destruct (par (st x2) _ e) as [d|]; [|apply xp_ret; exact H2].
     apply (xp_step x2 (ORemove (if is_cable (st x) e then RCables else RChildren) d e)); [exact H2|].
     intros x3 H3. cbv zeta.
-    destruct (match nm with None => None | Some [] => _ | Some (_ :: _) => _ end) as [nn|]; [|apply xp_ret; exact H3].
     apply xp_set_name; [exact H3|]. intros x4 H4.
     apply (xp_step x4 (OAdd (if is_cable (st x) e then RCables else RChildren) topd e None)); [exact H4|].
     intros; apply xp_ret; assumption.
@@ -105,7 +104,7 @@ Section Preserve.
     assert (H1 : P (st x1)) by (apply Hb; discriminate).
     destruct (iref (st x1) inst) as [d|]; cbn [fst]; [|apply xp_ret; exact H1].
     destruct (is_leaf_def (st x1) d); [apply IH; exact H1|].
-    set (iname := get_str (st x1) inst str_NAME).
+    set (iname := Some (name_in_path (st x1) inst)).
     pose proof (xp_xfold (fun x c => bring_to_top x c iname topd) (kids (st x1) RCables d)
                   (fun x0 a H0 => xp_bring_to_top x0 a iname topd H0) x1 H1) as Hc.
     destruct (xfold _ (kids (st x1) RCables d) x1) as [x2 [e|]]; cbn [fst]; [exact Hc|].
@@ -123,7 +122,7 @@ Section Preserve.
     intro H. unfold flatten.
     destruct (top (st x) n) as [t|]; [|apply xp_ret; exact H].
     destruct (iref (st x) t) as [topd|]; [|apply xp_ret; exact H].
-    pose proof (xp_flat_loop topd fuel x (map (fun c => (c, Some [])) (kids (st x) RChildren topd)) [] H) as Hl.
+    pose proof (xp_flat_loop topd fuel x (map (fun c => (c, None)) (kids (st x) RChildren topd)) [] H) as Hl.
     destruct (flat_loop fuel x topd _ []) as [[x1 [e|]] tr]; cbn in Hl; [exact Hl|].
     apply xp_xfold; [|apply Hl; discriminate].
     intros x0 i H0. apply (xp_step x0 (ORemove RChildren topd i)); [exact H0|]. intros; apply xp_ret; assumption.
